@@ -112,6 +112,14 @@ def signable_case(rng, gpg: bool, stats: dict | None = None, states=None, npool=
             env["signatures"][kk] = ({"signature": "00" * 64} if not gpg else {"other_headers": "04001608", "signature": "00" * 64})
         if stats is not None:
             stats["state:crowded-map"] = stats.get("state:crowded-map", 0) + 1
+    if rng.random() < 0.12:
+        # ahead of everything else in the map: copies of the values of the entries that follow, filed under junk / unauthorized indexes (an attacker can copy
+        # what is public); whatever is remembered about a *value* seen under such an index must not keep the genuine entry from counting
+        for k, v in entries[:3]:
+            if isinstance(k, str) and len(k) == 64:
+                env["signatures"][rng.choice(["00" * 32, "copy-of-" + k[:8], gen.key(15).hex, k.upper()])] = copy.deepcopy(v)
+        if stats is not None:
+            stats["state:copied-values-first"] = stats.get("state:copied-values-first", 0) + 1
     for k, v in entries:
         env["signatures"][k] = v
     # authorized list: random subset of the pool plus strangers, shuffled
